@@ -41,7 +41,7 @@ import (
 // C07: multi-node strategies return the right valid answer, in bounded time.
 //
 // Each of the 17 strategy implementations is built with n scripted beacon nodes.  Per node the
-// alphabet is: response kind (A = valid, scores high; B = valid, scores low; I = fails the strategy's
+// alphabet is: response kind (A = valid, scores high; B = valid, scores low; I / J = fails the strategy's
 // validity rule; E = error) x latency (0, <soft, =soft, between, =hard timeout, never-until-cancelled,
 // late-and-ignoring-cancellation).  All assignments are enumerated (mc.Choose) and, for each, all
 // orders of simultaneous events and select ties within the schedule bound.
@@ -109,7 +109,7 @@ func (tableCache) BlockRootToSlot(_ context.Context, r phase0.Root) (phase0.Slot
 		return c07Slot, nil
 	case root('B'):
 		return c07Slot - 2, nil
-	case root('I'):
+	case root('I'), root('J'):
 		return c07Slot - 1, nil
 	}
 	return 0, errors.New("unknown root")
@@ -147,6 +147,10 @@ func c07AttData(k byte) *phase0.AttestationData {
 		d.BeaconBlockRoot = root('I')
 		d.Target.Epoch = 2
 		d.Source.Epoch = 2
+	case 'J': // target epoch ahead of the slot's epoch (would also score highest)
+		d.BeaconBlockRoot = root('J')
+		d.Target.Epoch = 4
+		d.Source.Epoch = 3
 	}
 	return d
 }
@@ -349,7 +353,7 @@ func c07Strats() []c07Strat {
 	}
 	_ = ct
 	return []c07Strat{
-		{name: "attestationdata/best", fam: "best", kinds: "ABIE", mk: func(e *c07Env) func(context.Context) (byte, error) {
+		{name: "attestationdata/best", fam: "best", kinds: "ABIJE", mk: func(e *c07Env) func(context.Context) (byte, error) {
 			s, err := adbest.New(bg, adbest.WithLogLevel(zerolog.Disabled), adbest.WithClientMonitor(mon), adbest.WithProcessConcurrency(4),
 				adbest.WithTimeout(c07Timeout), adbest.WithChainTime(newChainTime(0, 12*time.Second, 32)), adbest.WithBlockRootToSlotCache(tableCache{}),
 				adbest.WithAttestationDataProviders(adProviders(e)))
@@ -358,7 +362,7 @@ func c07Strats() []c07Strat {
 				return adLabel(s.AttestationData(ctx, &api.AttestationDataOpts{Slot: c07Slot, CommitteeIndex: 1}))
 			}
 		}},
-		{name: "attestationdata/majority", fam: "majority", kinds: "ABIE", thresh: true, mk: func(e *c07Env) func(context.Context) (byte, error) {
+		{name: "attestationdata/majority", fam: "majority", kinds: "ABIJE", thresh: true, mk: func(e *c07Env) func(context.Context) (byte, error) {
 			s, err := admajority.New(bg, admajority.WithLogLevel(zerolog.Disabled), admajority.WithClientMonitor(mon), admajority.WithProcessConcurrency(4),
 				admajority.WithTimeout(c07Timeout), admajority.WithChainTime(newChainTime(0, 12*time.Second, 32)), admajority.WithBlockRootToSlotCache(tableCache{}),
 				admajority.WithThreshold(e.threshold), admajority.WithAttestationDataProviders(adProviders(e)))
@@ -624,7 +628,7 @@ func c07Check(st *c07Strat, e *c07Env, r *mc.Result) mc.Verdict {
 	if t1 > timeout {
 		return fail("returned-after-timeout", "returned after the configured timeout")
 	}
-	valid := func(k byte) bool { return k == 'A' || k == 'B' || (k == 'I' && !strings.Contains(st.kinds, "I")) }
+	valid := func(k byte) bool { return k == 'A' || k == 'B' || ((k == 'I' || k == 'J') && !strings.Contains(st.kinds, "I")) }
 	// arrival sets
 	type arr struct {
 		k byte
